@@ -5,8 +5,10 @@ CONSTANTS
   Sites = {1, 2, 3}
   StrLens = {5}
   CallocShapes <- ShapesPool4
+  SrcOffsets = {0, 1}
+  HugeSizes <- HugeAll
   Levels = {4, 5}
   Obs <- ObsEmit
-INVARIANTS TypeOK TableIsLiveSet UnknownPointerNoChange ReallocNullAllocates ReallocZeroFrees ReallocKeepsOthers
+INVARIANTS TypeOK TableIsLiveSet UnknownPointerNoChange ReallocNullAllocates ReallocZeroFrees ReallocKeepsOthers RefusedChangesNothing
 PROPERTY LevelConstant
 CHECK_DEADLOCK FALSE
